@@ -881,7 +881,8 @@ Proof.
   apply mpost_mbind with (P := fun _ => True); [apply mpost_true|intros meth _].
   destruct (_ && _)%bool; [apply mpost_mret, pinsonly_refl|].
   apply mpost_mbind with (P := fun _ => True); [apply mpost_true|intros [d|] _]; [|apply mpost_mret, pinsonly_refl].
-  destruct (pins_get (e_now e) d (ps_pins p)) as [pins1 ob].
+  destruct (pins_get (e_now e) d (ps_pins p)) as [pins1 ob]. cbv zeta.
+  destruct (_ && _)%bool; [apply mpost_mret; cbn [fst]; apply pinsonly_with, pinsonly_with, pinsonly_refl|].
   apply mpost_mbind with (P := fun _ => True); [apply mpost_true|intros ss _].
   apply mpost_mret. cbn [fst]. destruct (_ && _)%bool; [apply pinsonly_with|]; apply pinsonly_with, pinsonly_refl.
 Qed.
@@ -1137,7 +1138,7 @@ Proof. vm_compute. reflexivity. Qed.
 (* before the repair of findClientTransport: 10.9.9.9 was learned through the UDP listener
    (first event), so the response for a TCP Via entry leaves as a DATAGRAM *)
 Definition legacy_udp : fixes :=
-  {| fx_wiring := true; fx_udp_via_listener := false; fx_indialog_invite := true; fx_bracket_host := true; fx_resolved_key := true |}.
+  {| fx_wiring := true; fx_udp_via_listener := false; fx_indialog_invite := true; fx_bracket_host := true; fx_resolved_key := true; fx_stale_pin := true |}.
 Definition evs_legacy : list event :=
   [EvUdp 0 (s2b "10.9.9.9") 5070 (ex_req ["Via: SIP/2.0/TCP 10.9.9.9:5070;branch=z9hG4bKabc"] "Route: <sip:10.0.0.2:5070;lr>");
    EvUdp 0 bk 5070 (ex_resp [own; "Via: SIP/2.0/TCP 10.9.9.9:5070;branch=z9hG4bKabc;received=10.9.9.9"])].
